@@ -495,14 +495,14 @@ package lang
 //@   ensures[C12] message: result.Message == msg
 //@   modifies nothing
 
-//@ func Evaluator.evalExpr [C01,C07,C08,C11,C13,C15,C19,C20]
+//@ func Evaluator.evalExpr [C01,C02,C07,C08,C11,C13,C15,C19,C20]
 //@   modifies valueHeap, e.stackTop, e.returnVal, e.evalDepth
 //@   ensures[C20] depth-restored: e.evalDepth == old(e.evalDepth)
 //@   requires evOK(e) && expr != nil && !$faulted
 //@   updates $faulted, $out
 //@   ensures[C01] result-or-error: err == nil ==> result0 != nil
 //@   ensures[C01] errkind: err == nil || isRT(err) || isFlow(err)
-//@   ensures[C08] stack-restored: stackKept(e, old(e.stackTop), err)
+//@   ensures[C02,C08,C20] stack-restored: stackKept(e, old(e.stackTop), err)
 //@   ensures[C11] fault-latched: $faulted <==> isFault(err)
 //@   ensures evok: evOK(e)
 //@   after Evaluator.pushFrame: $frame = e.stackTop
@@ -530,13 +530,13 @@ package lang
 //@   loop 2 invariant in-match-frame: evOK(e) && e.stackTop == $frame && $frame.parent == old(e.stackTop) && !$faulted && $nmatch == 1 && !$ranBlock && e.evalDepth == old(e.evalDepth) + 1
 //@   loop 3 invariant protocol: evInv(e, old(e.stackTop)) && obj.Obj != nil && *obj.Obj != nil && e.evalDepth == old(e.evalDepth) + 1
 
-//@ func Evaluator.evalStatement [C01,C07,C08,C10,C11]
+//@ func Evaluator.evalStatement [C01,C02,C07,C08,C10,C11,C20]
 //@   modifies valueHeap, e.stackTop, e.returnVal, e.evalDepth
 //@   ensures[C20] depth-restored: e.evalDepth == old(e.evalDepth)
 //@   requires evOK(e) && stmt != nil && !$faulted
 //@   updates $faulted, $out
 //@   ensures[C01] errkind: result == nil || isRT(result) || isFlow(result)
-//@   ensures[C08] stack-restored: stackKept(e, old(e.stackTop), result)
+//@   ensures[C02,C08,C20] stack-restored: stackKept(e, old(e.stackTop), result)
 //@   ensures[C11] fault-latched: $faulted <==> isFault(result)
 //@   ensures evok: evOK(e)
 //@   ensures[C07,C08] bare-return-clears-the-return-slot: istype(stmt, *StatementReturn) && as(stmt, *StatementReturn).Expr == nil ==> (result == errReturn && e.returnVal == nil) || isRT(result)
@@ -560,14 +560,14 @@ package lang
 //@   loop 6 invariant[C07,C10] object-keys-visited-in-sorted-order: forall i int, j int :: 0 <= i && i < j && j < len(keys) ==> scmpS(keys[i], keys[j]) <= 0
 //@   loop 7 invariant protocol: evInv(e, old(e.stackTop)) && e.evalDepth == old(e.evalDepth) + 1
 
-//@ func Evaluator.evalExprList [C01,C08,C09,C11]
+//@ func Evaluator.evalExprList [C01,C02,C08,C09,C11,C20]
 //@   modifies valueHeap, e.stackTop, e.returnVal, e.evalDepth
 //@   ensures[C20] depth-restored: e.evalDepth == old(e.evalDepth)
 //@   requires evOK(e) && !$faulted
 //@   updates $faulted, $out
 //@   ensures[C01] all-cells: err == nil ==> len(result0) == len(exprs)
 //@   ensures[C01] errkind: err == nil || isRT(err) || isFlow(err)
-//@   ensures[C08] stack-restored: stackKept(e, old(e.stackTop), err)
+//@   ensures[C02,C08,C20] stack-restored: stackKept(e, old(e.stackTop), err)
 //@   ensures[C11] fault-latched: $faulted <==> isFault(err)
 //@   ensures evok: evOK(e)
 
@@ -576,14 +576,14 @@ package lang
 //@   loop 0 invariant[C09] copies-so-far-fresh: copy ==> (forall k int :: 0 <= k && k <= rangeindex ==> fresh(evaledExprs[k]))
 //@   loop 0 invariant protocol: evInv(e, old(e.stackTop)) && len(evaledExprs) == rangeindex + 1
 
-//@ func Evaluator.evalUnaryExpr [C01,C05,C08,C11]
+//@ func Evaluator.evalUnaryExpr [C01,C02,C05,C08,C11,C20]
 //@   modifies valueHeap, e.stackTop, e.returnVal, e.evalDepth
 //@   ensures[C20] depth-restored: e.evalDepth == old(e.evalDepth)
 //@   requires evOK(e) && expr != nil && !$faulted
 //@   updates $faulted, $out
 //@   ensures[C01] result-or-error: err == nil ==> result0 != nil
 //@   ensures[C01] errkind: err == nil || isRT(err) || isFlow(err)
-//@   ensures[C08] stack-restored: stackKept(e, old(e.stackTop), err)
+//@   ensures[C02,C08,C20] stack-restored: stackKept(e, old(e.stackTop), err)
 //@   ensures[C11] fault-latched: $faulted <==> isFault(err)
 //@   init $n = 0
 //@   after Evaluator.evalExpr: $n = $n + 1
@@ -604,7 +604,7 @@ package lang
 // C09 (an expression without assignment or mutating call never changes the input): evalBinaryExpr itself
 // stores nothing into existing values except the receiver link of a looked-up member; every other change
 // is made by a callee (evalAssignment for =, the operand evaluations, method calls).
-//@ func Evaluator.evalBinaryExpr [C01,C05,C08,C09,C11]
+//@ func Evaluator.evalBinaryExpr [C01,C02,C05,C08,C09,C11,C20]
 //@   storesonly[C09] operators-store-nothing-but-the-receiver-link: fresh, Value.Binding
 //@   modifies valueHeap, e.stackTop, e.returnVal, e.evalDepth
 //@   ensures[C20] depth-restored: e.evalDepth == old(e.evalDepth)
@@ -612,7 +612,7 @@ package lang
 //@   updates $faulted, $out
 //@   ensures[C01] result-or-error: err == nil ==> result0 != nil
 //@   ensures[C01] errkind: err == nil || isRT(err) || isFlow(err)
-//@   ensures[C08] stack-restored: stackKept(e, old(e.stackTop), err)
+//@   ensures[C02,C08,C20] stack-restored: stackKept(e, old(e.stackTop), err)
 //@   ensures[C11] fault-latched: $faulted <==> isFault(err)
 //@   init $n = 0
 //@   after Evaluator.evalExpr: $n = $n + 1
@@ -692,7 +692,7 @@ package lang
 //@ ghost $eqSeen bool
 //@ ghost $failMark int
 //@ ghost $lit *Cell
-//@ func Evaluator.evalCaseMatch [C01,C08,C11,C19]
+//@ func Evaluator.evalCaseMatch [C01,C02,C08,C11,C19,C20]
 //@   modifies valueHeap, e.stackTop, e.returnVal, e.evalDepth
 //@   ensures[C20] depth-restored: e.evalDepth == old(e.evalDepth)
 //@   requires evOK(e) && value != nil && !$faulted
@@ -711,7 +711,7 @@ package lang
 //@   loop 2 invariant protocol: evInv(e, old(e.stackTop)) && !$eqSeen && $failMark <= $alloc && newerThan(bindings, $failMark) && e.evalDepth == old(e.evalDepth)
 //@   updates $faulted, $out
 //@   ensures[C01] errkind: err == nil || isRT(err) || isFlow(err)
-//@   ensures[C08] stack-restored: stackKept(e, old(e.stackTop), err)
+//@   ensures[C02,C08,C20] stack-restored: stackKept(e, old(e.stackTop), err)
 //@   ensures[C11] fault-latched: $faulted <==> isFault(err)
 //@   ensures evok: evOK(e)
 
